@@ -69,7 +69,7 @@ class LibMixin:
                     core = self.skip(a)
                     if self.is_lv(core): atxt.append(self.addr(self.expr(core)))
                     else:
-                        tn = self.tmp('arg'); self.pre.append('%s %s = %s;' % (at.c, tn, self.expr(a))); atxt.append('&' + tn)
+                        tn = self.tmp('arg'); self.pre.append('%s %s = %s;' % (at.c, tn, ('{0}' if at.kind == 'opaque' and self.skip(a).get('kind') == 'CXXNullPtrLiteralExpr' else self.expr(a)))); atxt.append('&' + tn)
                     ptxt.append('const %s* a%d' % (at.c, i))
                 else:
                     atxt.append(self.expr(a, rvalue=True)); ptxt.append('%s a%d' % (at.c, i))
@@ -255,13 +255,43 @@ class LibMixin:
         element nested in a struct array reached via a pointer parameter (DESIGN §2 item 8), so for
         such lvalues the operation runs on a local copy that is written back (same semantics)."""
         a = ''.join(', ' + x for x in args)
-        if '.data[' not in o:
+        rvalue_text = re.match(r'^[A-Za-z_]\w*\(', o) is not None      # the object is the result of a call: a temporary
+        if '.data[' not in o and not rvalue_text:
             return '%s_%s(%s%s)' % (t.c, op, self.addr(o), a)
-        self.rules['nested-element-by-copy'] += 1
+        self.rules['temporary-container-by-copy' if rvalue_text else 'nested-element-by-copy'] += 1
+        if rvalue_text and op in self.MUTATORS: raise Unsupported('mutating a temporary container')
         tn = self.tmp('c')
         if op in self.MUTATORS:
             return '({ %s %s = %s; %s_%s(&%s%s); %s = %s; (void)0; })' % (t.c, tn, o, t.c, op, tn, a, o, tn)
         return '({ %s %s = %s; %s_%s(&%s%s); })' % (t.c, tn, o, t.c, op, tn, a)
+
+    PURE_NAMES = {'begin', 'end', 'cbegin', 'cend', 'rbegin', 'rend', 'size', 'ssize', 'empty', 'at', 'front', 'back', 'data', 'get', 'value', 'has_value', 'first', 'second'}
+    def has_call(self, n):
+        """does the expression contain a call that may have side effects (a non-const member function of a repository
+        class, or a free function)?  Iterator / container accessors and operators are not counted."""
+        k = n.get('kind')
+        if k in ('CallExpr', 'CXXMemberCallExpr'):
+            try:
+                d, r = self.callee_decl(n)
+            except Unsupported:
+                d, r = None, {}
+            nm = (r or {}).get('name', '')
+            if nm not in self.PURE_NAMES:
+                if d is None: return True
+                if d.get('kind') == 'CXXMethodDecl':
+                    if not self.is_const_method(d): return True
+                else:
+                    return True
+        return any(isinstance(c, dict) and self.has_call(c) for c in n.get('inner', []))
+
+    def assign_rhs_first(self, l, r, t):
+        """E1 = E2 : since C++17 E2 is sequenced before E1.  When E1 contains calls, E2 is evaluated into a temporary first."""
+        if self.has_call(l) and self.inline_checks == 0:
+            rv = self.expr(r, rvalue=True); tn = self.tmp('rhs')
+            self.pre.append('%s %s = %s;' % (t.c, tn, rv))
+            self.rules['assignment-rhs-sequenced-first'] += 1
+            return '(%s = %s)' % (self.expr(l), tn)
+        return '(%s = %s)' % (self.expr(l), self.expr(r, rvalue=True))
 
     def chk(self, cond, msg, lv):
         """library precondition as an obligation in front of an lvalue: a hoisted statement where
@@ -279,6 +309,11 @@ class LibMixin:
             ix = args[0]
             if self.has_side_effects(ix): raise Unsupported('side effect in vector index at ' + self.where(n))
             i = self.expr(ix)
+            if self.has_call(ix):
+                # the index is evaluated ONCE (it is used in the obligation and in the element access)
+                if self.inline_checks > 0: raise Unsupported('call in a vector index inside a conditionally evaluated operand at ' + self.where(n))
+                tn = self.tmp('ix'); self.pre.append('size_t %s = %s;' % (tn, i)); i = tn
+                self.rules['index-with-call-hoisted'] += 1
             msg = 'vector::at throws std::out_of_range' if m == 'at' else 'vector::operator[] index < size() (else UB)'
             return self.chk('(size_t)%s < %s.size' % (i, o), msg, '%s.data[%s]' % (o, i))
         if m == 'back':
@@ -356,7 +391,7 @@ class LibMixin:
             if op == '++': return '(--%s)' % o if len(args) == 1 else '(%s--)' % o
             if op in ('==', '!='): return '(%s %s %s)' % (o, op, self.expr(args[1]))
         if t.kind in ('vec',) and op == '=':
-            return '(%s = %s)' % (self.expr(args[0]), self.expr(args[1]))
+            return self.assign_rhs_first(args[0], args[1], t)
         return None
 
     def iter_container(self, itexpr):
@@ -406,7 +441,7 @@ class LibMixin:
                 if self.is_lv(core):
                     atxt.append(self.addr(self.expr(core)))
                 else:
-                    tn = self.tmp('arg'); self.pre.append('%s %s = %s;' % (at.c, tn, self.expr(a))); atxt.append('&' + tn)
+                    tn = self.tmp('arg'); self.pre.append('%s %s = %s;' % (at.c, tn, ('{0}' if at.kind == 'opaque' and self.skip(a).get('kind') == 'CXXNullPtrLiteralExpr' else self.expr(a)))); atxt.append('&' + tn)
                 ptxt.append('const %s* a%d' % (at.c, i))
             else:
                 atxt.append(self.expr(a, rvalue=True)); ptxt.append('%s a%d' % (at.c, i))
